@@ -430,6 +430,15 @@ def perturbations(spec_):
             if len(c.files) > 1:
                 out.append(('swap-files', 'change[%d]' % ci, 'swapfiles',
                             None))
+    for ci, c in enumerate(tree.changes):
+        # same-length edits of the public lists (replacement, reversal)
+        out.append(('replace-change', 'diffx', 'replacechange', ci))
+        if c.files:
+            out.append(('replace-file', 'change[%d]' % ci, 'replacefile',
+                        None))
+            if len(c.files) > 1:
+                out.append(('reverse-files', 'change[%d]' % ci,
+                            'reversefiles', None))
     out.append(('add-change', 'diffx', 'addchange', None))
     if tree.changes:
         out.append(('del-change', 'diffx', 'delchange', None))
@@ -527,6 +536,21 @@ def perturb(tree, path, how, key):
         if fsnap_list(sec.files[0]) == fsnap_list(sec.files[1]):
             return False
         sec.files[0], sec.files[1] = sec.files[1], sec.files[0]
+    elif how == 'replacechange':
+        other = DiffX()
+        nc = other.add_change(preamble='replacement\n',
+                              meta={'id': 'replacement'})
+        nc.add_file(meta={'path': 'replacement'})
+        tree.changes[key] = nc
+    elif how == 'replacefile':
+        other = DiffX()
+        nf = other.add_change().add_file(meta={'path': 'replacement'},
+                                         diff=b'-r\n+s\n')
+        sec.files[-1] = nf
+    elif how == 'reversefiles':
+        if fsnap_list(sec.files[0]) == fsnap_list(sec.files[-1]):
+            return False
+        sec.files.reverse()
     elif how == 'addchange':
         tree.add_change()
     elif how == 'delchange':
@@ -543,6 +567,21 @@ def perturb(tree, path, how, key):
 def fsnap_list(f):
     from mc.domsnap import snap_file
     return freeze(snap_file(f))
+
+
+def use_tree(t):
+    """Everything a program does with a tree before editing it again:
+    compare, iterate, print, serialise, analyse nothing (stats would change
+    it)."""
+    try:
+        t == t
+        list(t)
+        for c in t.changes:
+            list(c)
+        repr(t)
+        t.to_bytes()
+    except Exception:
+        pass
 
 
 def eq_checks(a, b, label):
@@ -700,17 +739,25 @@ def run_unit(unit, tier):
     else:
         sp = specs[i]
         for label, path, how, key in perturbations(sp):
-            a, b = build_tree(sp), build_tree(sp)
-            if not perturb(b, path, how, key):
-                continue
-            viols = eq_checks(a, b, 'perturbation %s at %s' % (label, path))
-            if not viols and a == b:
-                viols = [('perturbation-not-detected:%s' % label,
-                          '%s at %s' % (label, path))]
-            rec(viols, {'kind': 'eq-perturb', 'spec': to_jsonable(sp),
-                        'path': path, 'how': how, 'key': key,
-                        'label': label}, path.count('.') + path.count('[')
-                >= 2)
+            for used in ((False,) if sp.get('_big') else (False, True)):
+                a, b = build_tree(sp), build_tree(sp)
+                if used:
+                    use_tree(a)
+                    use_tree(b)
+                if not perturb(b, path, how, key):
+                    continue
+                viols = eq_checks(a, b, 'perturbation %s at %s%s'
+                                  % (label, path,
+                                     ' (trees used before)' if used else ''))
+                if not viols and a == b:
+                    viols = [('perturbation-not-detected:%s' % label,
+                              '%s at %s' % (label, path))]
+                if used:
+                    viols = [(k_ + ':after-use', m_) for k_, m_ in viols]
+                rec(viols, {'kind': 'eq-perturb', 'spec': to_jsonable(sp),
+                            'path': path, 'how': how, 'key': key,
+                            'label': label, 'used': used},
+                    path.count('.') + path.count('[') >= 2)
         acc.states = 1
         acc.sample({'perturbations_of': repr(sp)[:160]}, 1)
     return acc
@@ -845,10 +892,15 @@ def replay(payload):
     elif k == 'eq-perturb':
         sp = from_jsonable(payload['spec'])
         a, b = build_tree(sp), build_tree(sp)
+        if payload.get('used'):
+            use_tree(a)
+            use_tree(b)
         perturb(b, payload['path'], payload['how'], payload['key'])
         viols = eq_checks(a, b, 'perturbation')
         if not viols and a == b:
             viols = [('perturbation-not-detected:%s' % payload['label'], '')]
+        if payload.get('used'):
+            viols = [(k_ + ':after-use', m_) for k_, m_ in viols]
     else:
         viols = []
     return [{'key': k_, 'msg': m} for k_, m in viols]
